@@ -75,7 +75,7 @@ class World(S.WorldComponent):
                 "reachable_rx_never_crashes_proved"]
     mix = [("hostile", False, 2), ("hostile-benign", False, 3), ("hostile-benign", True, 1), ("strike", False, 1)]
     quick = (40, 220)
-    thorough = (400, 400)
+    thorough = (250, 400)
     oracles = [oracle_alive]
 
     def shrink(self, case):
